@@ -13,6 +13,7 @@ fn split_op(line: &str) -> (&str, &str) {
 
 fn main() {
     h::quiet_panics();
+    let mut st = h::State::new();
     let stdin = io::stdin();
     let stdout = io::stdout();
     let mut out = io::BufWriter::new(stdout.lock());
@@ -26,7 +27,7 @@ fn main() {
             continue;
         }
         let (op, arg) = split_op(l);
-        let reply = h::guarded(|| h::handle(op, arg))
+        let reply = h::guarded(|| h::handle(&mut st, op, arg))
             .unwrap_or(Some("panic-in-harness".to_string()))
             .unwrap_or_else(|| "bad-op".to_string());
         writeln!(out, "{}", reply.trim_end()).unwrap();
